@@ -39,6 +39,21 @@ def g_rules(dom=False):
     return out
 
 
+def batch_corner_ops(dom=False):
+    """batches that name a rule twice, or a stored rule before a missing one: all-or-nothing calls must leave the ORDER of the
+    store alone when they refuse, keep an in-batch duplicate at its FIRST position, and a removal batch naming a stored grouping
+    rule twice removes it once and still updates every other link"""
+    pr, gr = p_rules(dom), g_rules(dom)
+    return [AM("p", "p", [pr[0], pr[1], pr[0]]),      # duplicate with another rule between
+            AM("p", "p", [pr[3], pr[2], pr[3], pr[4]]),
+            RM("p", "p", [pr[0], pr[5]]),             # (typically) stored first, missing later
+            RM("p", "p", [pr[1], pr[4], pr[0]]),
+            RM("p", "p", [pr[1], pr[1]]),             # the same rule twice
+            RM("g", "g", [gr[0], gr[0], gr[1]]),
+            RM("g", "g", [gr[1], gr[3]]),
+            AM("g", "g", [gr[1], gr[0], gr[1]])]
+
+
 def mgmt_alphabet(dom=False, with_rbac=True, with_unknown=True):
     pr, gr = p_rules(dom), g_rules(dom)
     al = []
@@ -58,6 +73,7 @@ def mgmt_alphabet(dom=False, with_rbac=True, with_unknown=True):
     al.append(AM("p", "p", [pr[0], pr[3]]))
     al.append(RM("p", "p", [pr[0], pr[1]]))
     al.append(RM("p", "p", []))
+    al += batch_corner_ops(dom)
     al.append(AM("g", "g", [gr[0], gr[1]]))
     al.append(AM("g", "g", [gr[0], gr[2]]))
     al.append(RM("g", "g", [gr[0], gr[1]]))
